@@ -157,10 +157,21 @@ def run(ctx):
             if e1_ and e2_:
                 cons.append([rng.choice(e1_), rng.choice(e2_)] + ([rng.choice(e1_)] if rng.random() < 0.5 else [])); mixed = True
         cov = rng.choice([1.0, 1.0, 0.5])
-        rep = {"edges": [list(e) for e in G.edges()], "constraints": cons, "coverage": cov, "cyclic": cyclic}
+        lengths = None; extra = {}
+        if not cyclic and rng.random() < 0.4:
+            # coverage by LENGTH (edge coverage stays at its default 1): a constraint relaxed this way may be satisfied
+            # without containing all of its edges -- those edges must nevertheless be covered
+            for e in G.edges():
+                G.edges[e]["len"] = rng.choice([1, 1, 5, 5, 2])
+            lengths = {e: G.edges[e]["len"] for e in G.edges()}
+            cov = rng.choice([0.5, 0.8, 0.75])
+            extra = {"length_attr": "len", "subpath_constraints_coverage_length": cov}
+        rep = {"edges": [list(e) for e in G.edges()], "constraints": cons, "coverage": cov, "cyclic": cyclic, "lengths": lengths and {str(k): v for k, v in lengths.items()}}
         try:
             if cyclic:
                 m = fp.MinPathCoverCycles(G, subset_constraints=cons, subset_constraints_coverage=cov, solver_options={"threads": zoo.THREADS})
+            elif lengths:
+                m = fp.MinPathCover(G, subpath_constraints=cons, solver_options={"threads": zoo.THREADS}, **extra)
             else:
                 m = fp.MinPathCover(G, subpath_constraints=cons, subpath_constraints_coverage=cov, solver_options={"threads": zoo.THREADS})
             m.solve()
@@ -173,13 +184,30 @@ def run(ctx):
             continue
         routes = m.get_solution()["walks" if cyclic else "paths"]
         rep["solution"] = routes
-        why = props.constraint_covered(cons, routes, coverage=cov, as_set=cyclic)
+        why = props.constraint_covered(cons, routes, coverage=cov, lengths=lengths, as_set=cyclic)
         if why:
             ctx.report(("MinPathCoverCycles: " if cyclic else "MinPathCover: ") + why, rep); continue
+        why = props.covers(G, routes)
+        if why:
+            ctx.report(("MinPathCoverCycles: " if cyclic else "MinPathCover: ") + f"a constraint must not remove the cover requirement: {why}", rep); continue
         if not cyclic:
-            kmin = oracles.min_path_cover_bf(G, cons=cons, coverage=cov)
+            kmin = oracles.min_path_cover_bf(G, cons=cons, coverage=cov, lengths=lengths)
             if kmin is not None and kmin != len(routes):
-                ctx.report(f"MinPathCover returned {len(routes)} paths; minimum satisfying the constraints is {kmin}", rep)
+                ctx.report(f"MinPathCover returned {len(routes)} paths; minimum satisfying the constraints is {kmin}", rep); continue
+            if kmin is not None and lengths:
+                # the k-model itself: feasible at the minimum (with a real cover), infeasible one below
+                for kk in (kmin - 1, kmin):
+                    if kk < 1:
+                        continue
+                    try:
+                        km = fp.kPathCover(G, k=kk, subpath_constraints=cons, solver_options={"threads": zoo.THREADS}, **extra); km.solve()
+                    except Exception as e:
+                        ctx.report(f"kPathCover(k={kk}) raised {e!r}", rep); break
+                    ctx.count("E2_adversarial_constraints", "k_model_boundary")
+                    if km.is_solved() != (kk >= kmin):
+                        ctx.report(f"kPathCover(k={kk}) solved={km.is_solved()}; the minimum cover satisfying the constraints has {kmin} paths", rep); break
+                    if km.is_solved() and props.covers(G, km.get_solution()["paths"]):
+                        ctx.report(f"kPathCover(k={kk}): {props.covers(G, km.get_solution()['paths'])}", rep); break
 
     # (6) flow decomposition with the greedy shortcut: constraints from ARBITRARY routes with relaxed coverage; the
     #     greedy acceptance test and the MILP must agree on what "covered to the fraction" means
@@ -216,3 +244,47 @@ def run(ctx):
         ctx.case(["advfd", rep], nontrivial=True); ctx.count("E2_greedy_vs_milp_constraints", "cases")
         if res and res[True] != res[False]:
             ctx.report(f"MinFlowDecomp: {res[True]} paths with the greedy shortcut, {res[False]} without", rep)
+
+    # (7) error scale 0 == ignoring, in the presence of the safety optimisations that look at "trusted" edges: the
+    #     zero-scaled element carries a large (untrusted) weight, so it is selected by a percentile / given as trusted
+    for i in range(ctx.budget(160, 2500)):
+        rng = ctx.rng("scale0trusted", i)
+        name = ["kLeastAbsErrorsCycles", "kMinPathErrorCycles", "kLeastAbsErrors", "kLeastAbsErrorsCycles"][i % 4]
+        info = zoo.make(rng, name, node=False, with_cons=False, with_ignore=True, with_starts=False, exact=rng.random() < 0.5)
+        G = info["G"]; kw = dict(info["kwargs"]); kw.pop("error_scaling", None)
+        if rng.random() < 0.6:
+            # an extra heavy edge that no generating route uses: forcing a route through it (because it stayed "trusted")
+            # costs error, ignoring it costs nothing
+            nodes_ = [v for v in G.nodes()]
+            cand = [(u, v) for u in nodes_ for v in nodes_ if u != v and not G.has_edge(u, v) and G.in_degree(v) > 0 and G.out_degree(u) > 0]
+            rng.shuffle(cand)
+            for (u, v) in cand:
+                G.add_edge(u, v, flow=0)
+                if name.endswith("Cycles") or nx.is_directed_acyclic_graph(G):
+                    info["ignore"] = [(u, v)]; kw["elements_to_ignore"] = [(u, v)]; break
+                G.remove_edge(u, v)
+        if not info["ignore"]:
+            continue
+        for x in info["ignore"]:
+            if "flow" in G.edges[tuple(x)]:
+                G.edges[tuple(x)]["flow"] = G.edges[tuple(x)]["flow"] + rng.choice([20, 100])
+        if name.endswith("Cycles"):
+            kw["trusted_edges_for_safety_percentile"] = rng.choice([25, 50, 75])
+        else:
+            kw["trusted_edges_for_safety"] = [tuple(x) for x in info["ignore"]] + [e for e in G.edges() if rng.random() < 0.5]
+        rep = {"class": name, "instance": zoo.describe(info), "kwargs": {k: v for k, v in kw.items() if k != "solver_options"}}
+        res = []
+        for variant in ("ignore", "scale0"):
+            kwv = dict(kw)
+            if variant == "scale0":
+                kwv.pop("elements_to_ignore", None); kwv["error_scaling"] = {tuple(x): 0 for x in info["ignore"]}
+            inf = dict(info); inf["kwargs"] = kwv
+            try:
+                mv = zoo.construct(inf); mv.solve(); res.append((mv.is_solved(), objective(mv, name) if mv.is_solved() else None))
+            except ValueError:
+                res.append(("ValueError", None))
+            except Exception as e:
+                res.append((f"raise:{type(e).__name__}", None))
+        ctx.case(["scale0trusted", rep["instance"], rep["kwargs"]], nontrivial=True); ctx.count("E2_scale0_equals_ignore_trusted", "cases")
+        if res[0][0] != res[1][0] or (res[0][0] is True and not same(res[0][1], res[1][1])):
+            ctx.report(f"{name}: with trusted edges for safety, ignoring gives {res[0]} but error scale 0 on the same elements gives {res[1]}", rep)
